@@ -59,3 +59,82 @@ package storage
 //@   loop 0 invariant {nf} forall(c, 0, len(result), newlySafe(repo, result[c]))
 //@   loop 0 invariant {rep} forall(t bitcoin.Hash32, has(repo.unconfirmed, t) && repo.unconfirmed[t].safe && !old(repo.unconfirmed[t].safe) ==> exists(c, 0, len(result), result[c] == t))
 //@   loop 0 invariant forall(r2 *state.memPoolTx, r2.trusted == old(r2.trusted)) && same(memPool.txs) && forall(t bitcoin.Hash32, has(memPool.txs, t) == old(has(memPool.txs, t)) && memPool.txs[t] == old(memPool.txs[t]))
+
+//@ func (*TxRepository).Add
+//@   opt partial = 1
+//@   serves C07 C03
+//@   requires height == -1 && InvU(repo) && !held(repo.unconfirmedLock)
+//@   ensures gate: result0 == !old(has(repo.unconfirmed, txid)) && result2 == nil && has(repo.unconfirmed, txid)
+//@   ensures existing: old(has(repo.unconfirmed, txid)) ==> repo.unconfirmed[txid] == old(repo.unconfirmed[txid])
+//@        && repo.unconfirmed[txid].trusted == (old(repo.unconfirmed[txid].trusted) || trusted)
+//@        && repo.unconfirmed[txid].safe == (old(repo.unconfirmed[txid].safe) || safe)
+//@        && result1 == (safe && !old(repo.unconfirmed[txid].safe))
+//@        && same(repo.unconfirmed[txid].unsafe, repo.unconfirmed[txid].time)
+//@   ensures created: !old(has(repo.unconfirmed, txid)) ==> fresh(repo.unconfirmed[txid]) && repo.unconfirmed[txid].safe == safe
+//@        && !repo.unconfirmed[txid].unsafe && repo.unconfirmed[txid].trusted == trusted && result1 == safe
+//@   ensures others: same(repo.unconfirmed) && uSameExcept(repo, txid) && cellsSameExcept(repo.unconfirmed[txid])
+//@   ensures never_clears_unsafe: forall(x *unconfirmedTx, !fresh(x) && old(x.unsafe) ==> x.unsafe)
+//@   ensures inv: InvU(repo) && !held(repo.unconfirmedLock)
+//@   loop 0 invariant true
+
+//@ func (*TxRepository).Remove
+//@   opt partial = 1
+//@   serves C03 C07
+//@   requires height == -1 && InvU(repo) && !held(repo.unconfirmedLock)
+//@   ensures gone: !has(repo.unconfirmed, txid) && result0 == old(has(repo.unconfirmed, txid)) && result1 == nil
+//@   ensures others: same(repo.unconfirmed) && uSameExcept(repo, txid) && forall(x *unconfirmedTx, !fresh(x) ==> cellSame(x))
+//@   ensures inv: InvU(repo) && !held(repo.unconfirmedLock)
+//@   loop 0 invariant true
+
+//@ func (*TxRepository).Contains
+//@   opt partial = 1
+//@   serves C03
+//@   requires height == -1 && InvU(repo) && !held(repo.unconfirmedLock)
+//@   ensures value: result0 == has(repo.unconfirmed, txid) && result1 == nil
+//@   ensures frame: same(repo.unconfirmed) && uSame(repo) && !held(repo.unconfirmedLock)
+//@   loop 0 invariant true
+
+//@ func (*TxRepository).GetUnconfirmed
+//@   serves C03
+//@   opt returns_locked = 1
+//@   requires InvU(repo) && !held(repo.unconfirmedLock)
+//@   ensures locked: held(repo.unconfirmedLock) && result1 == nil
+//@   ensures {nf} sound: forall(c, 0, len(result0), has(repo.unconfirmed, result0[c]))
+//@   ensures {rep} complete: forall(t bitcoin.Hash32, has(repo.unconfirmed, t) ==> exists(c, 0, len(result0), result0[c] == t))
+//@   ensures frame: same(repo.unconfirmed) && uSame(repo) && forall(x *unconfirmedTx, !fresh(x) ==> cellSame(x))
+//@   loop 0 invariant same(repo.unconfirmed) && uSame(repo) && fresharr(result) && held(repo.unconfirmedLock)
+//@   loop 0 invariant {nf} forall(c, 0, len(result), has(repo.unconfirmed, result[c]))
+//@   loop 0 invariant {rep} forall(t bitcoin.Hash32, has(repo.unconfirmed, t) && visited(t) ==> exists(c, 0, len(result), result[c] == t))
+
+//@ func (*TxRepository).ReleaseUnconfirmed
+//@   serves C03
+//@   opt returns_locked = 1
+//@   requires held(repo.unconfirmedLock)
+//@   ensures released: !held(repo.unconfirmedLock) && result == nil && same(repo.unconfirmed)
+
+//@ func (*TxRepository).save
+//@   trusted
+//@   opt modifies = none
+//@   serves C11
+//@   ensures frame: same(repo.unconfirmed) && uSame(repo) && forall(x *unconfirmedTx, cellSame(x))
+
+//@ func (*TxRepository).FinalizeUnconfirmed
+//@   serves C03 C07 C11
+//@   opt returns_locked = 1
+//@   requires InvU(repo) && held(repo.unconfirmedLock)
+//@   ensures released: !held(repo.unconfirmedLock)
+//@   ensures {nf} only_listed: forall(t bitcoin.Hash32, has(repo.unconfirmed, t) ==> exists(c, 0, len(unconfirmed), unconfirmed[c] == t))
+//@   ensures {rep} all_listed: forall(c, 0, len(unconfirmed), has(repo.unconfirmed, unconfirmed[c]))
+//@   ensures kept: forall(t bitcoin.Hash32, has(repo.unconfirmed, t) && old(has(repo.unconfirmed, t)) ==> repo.unconfirmed[t] == old(repo.unconfirmed[t]))
+//@   ensures created: forall(t bitcoin.Hash32, has(repo.unconfirmed, t) && !old(has(repo.unconfirmed, t)) ==> fresh(repo.unconfirmed[t])
+//@        && repo.unconfirmed[t].trusted && !repo.unconfirmed[t].safe && !repo.unconfirmed[t].unsafe)
+//@   ensures flags_kept: forall(x *unconfirmedTx, !fresh(x) ==> cellSame(x))
+//@   ensures inv: InvU(repo)
+//@   loop 0 invariant 0 <= _i && _i <= len(unconfirmed) && newUnconfirmed != nil && fresh(newUnconfirmed) && same(repo.unconfirmed) && uSame(repo) && held(repo.unconfirmedLock)
+//@   loop 0 invariant forall(x *unconfirmedTx, !fresh(x) ==> cellSame(x))
+//@   loop 0 invariant {nf} forall(t bitcoin.Hash32, has(newUnconfirmed, t) ==> exists(c, 0, _i, unconfirmed[c] == t))
+//@   loop 0 invariant {rep} forall(c, 0, _i, has(newUnconfirmed, unconfirmed[c]))
+//@   loop 0 invariant forall(t bitcoin.Hash32, has(newUnconfirmed, t) && old(has(repo.unconfirmed, t)) ==> newUnconfirmed[t] == old(repo.unconfirmed[t]))
+//@   loop 0 invariant forall(t bitcoin.Hash32, has(newUnconfirmed, t) && !old(has(repo.unconfirmed, t)) ==> fresh(newUnconfirmed[t]) && newUnconfirmed[t].trusted && !newUnconfirmed[t].safe && !newUnconfirmed[t].unsafe)
+//@   loop 0 invariant forall(t bitcoin.Hash32, has(newUnconfirmed, t) ==> newUnconfirmed[t] != nil)
+//@   loop 0 invariant forall(t bitcoin.Hash32, forall(u bitcoin.Hash32, has(newUnconfirmed, t) && has(newUnconfirmed, u) && t != u ==> newUnconfirmed[t] != newUnconfirmed[u]))
